@@ -676,6 +676,7 @@ impl Check for C08 {
         let mats = if tier == Tier::Quick { MATRICES_QUICK } else { MATRICES_THOROUGH };
         let trials = if tier == Tier::Quick { 60_000 } else { 400_000 };
         let mut m = serde_json::Map::new();
+        m.insert("enumerated_small_matrices".into(), serde_json::json!(enum_cells()));
         m.insert(
             "stat_budget".into(),
             serde_json::json!({
